@@ -48,7 +48,7 @@ func (c *C18Case) NTKey() string {
 		seen := map[int]bool{}
 		for _, o := range p {
 			switch o.Op {
-			case "Iterate", "MultIterate", "Add", "Lt", "Sum", "Argmax", "MatMul", "Dot", "Materialize", "Slice", "Inner", "Clone":
+			case "Iterate", "MultIterate", "MinBetweenScalar", "MaxBetweenScalar", "Add", "Lt", "Sum", "Argmax", "MatMul", "Dot", "Materialize", "Slice", "Inner", "Clone":
 				seen[o.Shared] = true
 			}
 		}
@@ -64,7 +64,7 @@ func (c *C18Case) NTKey() string {
 	return ""
 }
 
-var c18SharedOps = []string{"At", "Slice", "Iterate", "MultIterate", "Add", "AddShared", "AddScalar", "ScalarSub", "LtScalar", "Lt", "Sum", "Max", "Argmax", "Inner", "MatVecMul", "MatMul", "Dot", "TensorMul", "Clone", "Materialize", "Sprint", "T-safe", "Repeat", "Stack", "Apply", "PrivateUnsafe", "PrivateReturn", "PrivateScalarOther", "PrivateTensorMul"}
+var c18SharedOps = []string{"At", "Slice", "Iterate", "MultIterate", "PrivateSprintBig", "MinBetweenScalar", "MaxBetweenScalar", "Add", "AddShared", "AddScalar", "ScalarSub", "LtScalar", "Lt", "Sum", "Max", "Argmax", "Inner", "MatVecMul", "MatMul", "Dot", "TensorMul", "Clone", "Materialize", "Sprint", "T-safe", "Repeat", "Stack", "Apply", "PrivateUnsafe", "PrivateReturn", "PrivateScalarOther", "PrivateTensorMul"}
 
 // runOp performs one operation and returns a digest of what it delivered.
 func c18RunOp(o C18Op, shared []*tensor.Dense, sharedM []Arr, priv **tensor.Dense) string {
@@ -210,6 +210,19 @@ func c18RunOp(o C18Op, shared []*tensor.Dense, sharedM []Arr, priv **tensor.Dens
 		return fmt.Sprint(readAll(s.Materialize()))
 	case "Sprint":
 		return fmt.Sprint(s)
+	case "PrivateSprintBig":
+		// a private tensor with more rows than are printed: the formatter elides in the middle
+		p := fresh([]int{10 + o.Arg%4, 2 + o.Arg%2}, int64(o.Arg%7))
+		return fmt.Sprintf("%v|%s|%+v", p, p, p)
+	case "MinBetweenScalar", "MaxBetweenScalar":
+		var sc interface{} = int32(o.Arg%5 + 1)
+		if isF {
+			sc = float64(o.Arg%5 + 1)
+		}
+		if o.Op == "MinBetweenScalar" {
+			return dig(tensor.MinBetween(s, sc))
+		}
+		return dig(tensor.MaxBetween(s, sc))
 	case "T-safe":
 		return dig(s.SafeT())
 	case "Repeat":
